@@ -6,6 +6,7 @@ let () =
   | _ :: "c05" :: file :: _ -> C05.run file
   | _ :: "c11" :: file :: _ -> C11.run file
   | _ :: "c15" :: file :: _ -> C15.run file
+  | _ :: "c16" :: file :: _ -> C16.run file
   | _ :: "c19" :: file :: _ -> C19.run file
   | _ :: ("c06" | "c10" | "c13" | "c18" as m) :: file :: _ -> Pg.run m file
   | _ -> prerr_endline "usage: oracle <property> <trace>"; exit 2
